@@ -27,18 +27,60 @@ def run(c):
         return x if keyed == 'int' else x.i
 
     ops = list(c['ops'])
+    first = 0
     kw = {} if keyed == 'id' else {'make_hashable': None}
     if c.get('ctor_nodes') and ops and ops[0][0] == 'nodes':
         g = DiGraph([node(i) for i in ops[0][1]], **kw)
         ops = ops[1:]
+        first = 1
     else:
         g = DiGraph(**kw)
+    # how the caller hands collections over: a one-shot iterator, a list/tuple/frozenset, or a set of its own that it keeps
+    # using afterwards (a scratch buffer that is cleared / refilled, or one set passed for two nodes); the graph is defined by
+    # the values at the time of the call
+    kinds = c.get('containers') or {}
+    after = c.get('after') or {}
+    kept = {}
+
+    def box(k, items):
+        kind = kinds.get(str(k), 'iter')
+        if kind == 'iter':
+            return iter(items)
+        if kind == 'list':
+            return list(items)
+        if kind == 'tuple':
+            return tuple(items)
+        if kind == 'frozenset':
+            return frozenset(items)
+        if kind == 'dictkeys':
+            return dict.fromkeys(items).keys()
+        if kind.startswith('set'):          # 'set' or 'set:<slot>' (a scratch set shared between calls)
+            slot = kind[4:] or 'own%d' % k
+            s = kept.setdefault(slot, set())
+            s.clear()
+            s.update(items)
+            return s
+        raise AssertionError(kind)
+
+    def meddle(k):
+        for slot, what, vals in after.get(str(k), []):
+            s = kept.get(slot)
+            if s is None:
+                continue
+            if what == 'clear':
+                s.clear()
+            elif what == 'add':
+                s.update(node(i) for i in vals)
+            elif what == 'discard':
+                for i in vals:
+                    s.discard(node(i))
     try:
-        for o in ops:
+        for k, o in enumerate(ops, first):
             if o[0] == 'nodes':
-                g.add_nodes(iter([node(i) for i in o[1]]))
+                g.add_nodes(box(k, [node(i) for i in o[1]]))
             else:
-                g.add_neighbors(node(o[1]), iter([node(i) for i in o[2]]), o[3])
+                g.add_neighbors(node(o[1]), box(k, [node(i) for i in o[2]]), o[3])
+            meddle(k)
     except KeyError:
         return {'raised': True, 'nodes': [], 'adj': [], 'def': None, 'triv': None}
     res = {'raised': False}
